@@ -40,7 +40,7 @@ for res in sorted(glob.glob(CONF + '/C*-*.result')):
         'needs_to_manifest': needs(readme),
         'files_touched': sorted(set(re.findall(r'^\+\+\+ b/(\S+)', open(f'{src}/patch.diff').read(), re.M))),
         'demo_packages': demo_pkgs,
-        'confirmed_against_repo_commit': head,
+        'confirmed_against_repo_commit': (re.search(r'^HEAD: (\w+)', txt, re.M).group(1) if re.search(r'^HEAD: (\w+)', txt, re.M) else head + ' (or its parent deb6a18: confirmation ran while 41bc913 was being committed)'),
         'confirmation': {
             'how': 'tools/confirm_seed.sh in a scratch git worktree of /repo HEAD (removed afterwards)',
             'ran': ['git apply patch.diff', 'go build ./...', 'go test -vet=off -count=1 -timeout 25m ./...  (existing suite, unedited, with the change)',
